@@ -132,6 +132,16 @@ def ofVal : Val → Content
   | .u32s l => { slice := some l }
   | v => { val := v }
 
+/-- `cloneContent` (treasure.go): copies ONE slot — the typed scalar if there is one, else the
+    slice, else the void flag — so a clone of a content with hidden state looks different -/
+def clone (c : Content) : Content :=
+  match c.val with
+  | .none =>
+    (match c.slice with
+     | some l => { slice := some l }
+     | none => if c.void then { void := true } else {})
+  | v => { val := v }
+
 /-- Exactly one representation per visible value (no hidden slice, no stale void flag, not nil). -/
 def WF (c : Content) : Prop := c = ofVal c.vis
 end Content
